@@ -141,6 +141,12 @@ pub struct DevSim<'a> {
     pub reads: usize,
     /// all calls seen so far
     pub total: usize,
+    /// second-opinion mode: the call index the real driver saw for each item (index = item
+    /// number); when present, the answer of the call made for item i is computed from that
+    /// index instead of the simulation's own call counter, so that a crate that makes more or
+    /// fewer calls than the protocol says (C02's business) does not shift the values
+    pub call_of_item: Option<Vec<usize>>,
+    pub current_item: usize,
 }
 
 #[derive(Clone, Copy, Debug, PartialEq, Eq)]
@@ -154,7 +160,7 @@ pub fn fail_id(spec: &DriverSpec, total_index: usize) -> u64 {
 
 impl<'a> DevSim<'a> {
     pub fn new(spec: &'a DriverSpec) -> Self {
-        DevSim { spec, reads: 0, total: 0 }
+        DevSim { spec, reads: 0, total: 0, call_of_item: None, current_item: 0 }
     }
     /// an output-reading call: per supplied signal index its value, in layout order
     pub fn read(&mut self) -> Result<(usize, Vec<(usize, OutVal)>), DevFail> {
@@ -164,6 +170,11 @@ impl<'a> DevSim<'a> {
             return Err(DevFail { id: fail_id(self.spec, t) });
         }
         self.reads += 1;
+        // the constructor call is call 0 in either mode
+        let t = match (&self.call_of_item, t) {
+            (Some(m), t) if t > 0 => m.get(self.current_item).copied().unwrap_or(t),
+            _ => t,
+        };
         Ok((t, self.spec.layout.iter().map(|s| (*s, self.spec.answer(t, *s))).collect()))
     }
     /// a write-only call as the crate issues it
